@@ -781,6 +781,8 @@ def seq_case(rnd):
     g = G.Gen(rnd, joins=not big, feat=dict(ENVELOPE, subq=(), derived=0.0 if big else 0.2))
     for _ in range(rnd.choice([5, 7, 9])):
         k = rnd.random()
+        if pk and not pkb and len(steps) > 4 and rnd.random() < 0.25:
+            k = 0.8          # (the key-range branch below)
         if contig and k < 0.3:
             n = rnd.choice([30, 45, 70])
             rows = [[nextkey + i, rnd.choice([0, 1, 2, 3] if nn else G.INTS), rnd.choice(G.STRS)] for i in range(n)]
@@ -855,6 +857,22 @@ def seq_case(rnd):
             steps.append({"sql": f"delete from {t} where {col} {op} {rnd.choice([0, 1, 2, 3, 7])}", "kind": "dml"})
         elif k < 0.72:
             steps.append({"op": "compact", "kind": "env"})
+        elif pk and not pkb and 0.72 <= k < 0.84:
+            # a key range (pushed into the scan by the disk engine only): what earlier DELETEs hid stays hidden
+            A = lambda c, ty=G.INT: ("col", "x1", c, ty)
+            v0 = rnd.choice([0, 1, 2, 3] if not big else ([7, 8, 9, 10, 11] if dup else [rnd.randrange(100, max(101, nextkey))]))
+            w = rnd.choice([("bin", ">", A("a"), ("ci", v0), G.BOOL), ("bin", "<=", A("a"), ("ci", v0), G.BOOL),
+                            ("bin", "=", A("a"), ("ci", v0), G.BOOL),
+                            ("bin", "and", ("bin", ">=", A("a"), ("ci", v0), G.BOOL), ("bin", "<", A("a"), ("ci", v0 + 2), G.BOOL), G.BOOL)])
+            q = dict(sel=[(A("a"), "c1"), (A("b"), "c2"), (A("c", G.STR), "c3")], frm=("t", "t1", "x1"), where=w, grp=[], hav=None,
+                     agg=False, dist=False, ord=[], lim=-1, off=0)
+            if rnd.random() < 0.6:
+                # ... some of them by a DELETE just before, of one key or of the rows with a given b
+                steps.append({"sql": rnd.choice([f"delete from t1 where a = {rnd.choice([v0, v0 + 1])}",
+                                                 f"delete from t1 where b = {rnd.choice([0, 1, 2])}"]), "kind": "dml"})
+            steps.append({"sql": G.sql_query(q), "kind": "query", "q": q})
+            if rnd.random() < 0.3:
+                steps.append({"sql": f"delete from t1 where {G.sql_expr(w)}", "kind": "dml"})
         elif pkb and k < 0.92:
             # scans that prune the column in front of the key and rely on key order
             A = lambda c, ty=G.INT: ("col", "x1", c, ty)
